@@ -55,7 +55,7 @@ THEOREMS = ['C07_plane_intersection_on_both', 'C07_plane_intersection_direction'
             'C07_sort_sides_outcomes', 'C07_base_vectors_parallel_planes',
             'C07_collinear_sides_parallel', 'C07_walk_ends_iff_closed_tour',
             'C07_sort_count_error', 'C07_rhp_is_C03_rhp_linked',
-            'C07_develop_lattice_hex_is_tied']
+            'C07_develop_lattice_hex_is_tied', 'C07_caps_parallel_to_axis']
 TRUSTED = [
     'hand-written model coq/C07/Model.v (modelled, tied by execution only)',
     'binary64 evaluation: the theorems are over R; the model is run at '
@@ -146,6 +146,9 @@ def guarded(fun, *args):
     from t4_geom_convert.Kernel.Volume.Lattice import LatticeError
     old = signal.signal(signal.SIGALRM, _alarm)
     signal.setitimer(signal.ITIMER_REAL, 2.0)
+    tracing = COV is not None and COV_ON[0]
+    if tracing:
+        COV.__enter__()
     try:
         return ('ok', fun(*args))
     except ZeroDivisionError:
@@ -161,6 +164,8 @@ def guarded(fun, *args):
     except Exception:       # pylint: disable=broad-except
         return ('err', 'EOther')
     finally:
+        if tracing:
+            COV.__exit__()
         signal.setitimer(signal.ITIMER_REAL, 0)
         signal.signal(signal.SIGALRM, old)
 
@@ -277,9 +282,36 @@ def rhp_card_deck(rng):
 
 
 DEVELOP_RECORDS = []        # calls of develop_lattice seen in this run
+COV = None                  # line-coverage tracer of the anchored functions
+COV_ON = [False]            # trace the function-level calls of this iteration
+
+# lines of the anchored functions that no input of this check can reach
+UNREACHABLE = [
+    # develop_lattice: only called for lattice cells by ConstructVolumeT4, with
+    # a LatticeSpec; LAT=1 belongs to C06
+    'return', 'lat_base_vectors = squareLatticeBaseVectors(surfaces)',
+    # fewer FILL ranges than base vectors: only through the --lattice option (C06)
+    "msg = ('Problem of domain definition for lattice; expected '",
+    "f'at least {n_vectors} bounds, got {len(domain.bounds)}')",
+    # hexSortSides is only called by hexVertices, with six planes
+    "raise LatticeError('hexSortSides() must be called with 6 planes')",
+]
 
 
-def convert_watchdog(text, secs=30.0):
+def anchored_functions():
+    from t4_geom_convert.Kernel import VectUtils as VU
+    from t4_geom_convert.Kernel.Volume import Lattice as LT
+    from t4_geom_convert.Kernel.Volume.CellConversion import CellConversion
+    from t4_geom_convert.Kernel.Surface import MacroBodies as MB
+    return [VU.pointInPlaneIntersection, VU.planeSide, VU.projectPointOnPlane,
+            VU.rotate, VU.planeParamsFromNormalAndPoint,
+            LT.areHexSidesAdjacent, LT.hexSortSides, LT.hexVertices,
+            LT.hexLatticeBaseVectors, LT.latticeVector,
+            CellConversion.develop_lattice, CellConversion.extract_surfaces,
+            MB.rhp]
+
+
+def convert_watchdog(text, secs=30.0, trace=False):
     """impl.convert under a watchdog: a conversion that does not end (the
     unbounded loop of hexVertices) comes back as exc='Hang'.  Every call of
     CellConversion.develop_lattice made on the way is recorded (run-time
@@ -287,8 +319,12 @@ def convert_watchdog(text, secs=30.0):
     from props import c06
     old = signal.signal(signal.SIGALRM, _alarm)
     signal.setitimer(signal.ITIMER_REAL, secs)
+    tracing = COV is not None and trace
     try:
         with c06.spy_develop(DEVELOP_RECORDS):
+            if tracing:
+                with COV:
+                    return impl.convert(text, keep_stdout=False)
             return impl.convert(text, keep_stdout=False)
     finally:
         signal.setitimer(signal.ITIMER_REAL, 0)
@@ -353,9 +389,11 @@ def plane_card(sid, point, nrm):
     return {'id': sid, 'mn': 'p', 'params': nrm + [d], 'tr': None, 'bc': ''}
 
 
-def gen_deck(rng, style=None):
+def gen_deck(rng, style=None, force=None):
     '''LAT=2 deck; every element of the FILL array gets its own universe (or 0,
-    or the lattice's own universe). Returns (deck, meta).'''
+    or the lattice's own universe). Returns (deck, meta).  `force` (0..4) fixes the
+    placement variant and puts a 0 and an own-universe entry in the array (the
+    first decks of the sweep cover every branch of develop_lattice).'''
     import deck as deckmod
     S = deckmod.S
     if style is None:
@@ -436,7 +474,7 @@ def gen_deck(rng, style=None):
         n_el = 1
         for lo, hi in ranges:
             n_el *= hi - lo + 1
-        if 2 <= n_el <= 14:
+        if (3 if force is not None else 2) <= n_el <= 14:
             break
     array = []
     for k in range(n_el):
@@ -452,6 +490,8 @@ def gen_deck(rng, style=None):
         # nothing to convert (construct_volume_t4 then fails on an empty
         # max(): a corner outside this property, see notes/C07.md)
         array[0] = 10
+    if force is not None:
+        array[0], array[1], array[2] = 10, 0, 1
     cells = []
     reach = 0.0
     all_vecs = list(vecs) + ([np.zeros(3)] if len(vecs) == 2 else [])
@@ -501,6 +541,8 @@ def gen_deck(rng, style=None):
     # moved by TRCL, or the lattice universe placed by a fill transformation
     moved = None
     roll = rng.random()
+    if force is not None:
+        roll = [0.9, 0.05, 0.15, 0.25, 0.35][force]
     if roll < 0.12 and style == 'planes':
         moved = 'surface-tr'
         trf = deckmod.random_tr(rng)
@@ -527,6 +569,11 @@ def gen_deck(rng, style=None):
     elif roll < 0.32:
         moved = 'container-fill-tr'
         cells[0]['fill']['tr'] = deckmod.random_tr(rng)
+    elif roll < 0.42:
+        # every filler placed by the fill transformation of the lattice cell
+        # (develop_lattice composes it with the element translation)
+        moved = 'lattice-fill-tr'
+        cells[1]['fill']['tr'] = deckmod.random_tr(rng)
     move = None
     if moved in ('trcl', 'container-fill-tr'):
         radius = gen.clean(radius + 9.0)
@@ -684,6 +731,38 @@ def finding_class(_conv, _meta):
 # ---- the check ------------------------------------------------------------
 
 def run(res, tier, seed, proofs_ok):
+    '''Ties and sweep; the first 250 admissible prisms, every malformed one and
+    the first 30 conversions run under a line tracer restricted to the
+    anchored functions: every line a LAT=2 input can reach must be executed.'''
+    import c02_cov
+    global COV
+    cov = COV = c02_cov.LineCov(anchored_functions())
+    try:
+        _run(res, tier, seed, proofs_ok)
+    finally:
+        COV = None
+        COV_ON[0] = False
+    total, missing = cov.missing(UNREACHABLE)
+    import linecache
+    from t4_geom_convert.Kernel.Volume import CellConversion as ccmod
+    # the raise that follows the 'at least n bounds' message (see UNREACHABLE)
+    missing = [m for m in missing
+               if not (m[2] == 'raise LatticeError(msg)' and 'at least' in
+                       linecache.getline(ccmod.__file__, m[1] - 1))]
+    res.obligation('coverage: the generated inputs execute every reachable line '
+                   f'of the anchored functions ({total} lines of '
+                   f'{len(cov.codes)} code objects)', not missing,
+                   f'never executed: {missing[:6]}')
+    if missing:
+        res.violation('harness-error',
+                      'generated inputs no longer reach these lines of the '
+                      f'anchored code (strengthen the generators): {missing[:8]}',
+                      {'theorem_or_correspondence': 'coverage',
+                       'input': {'lines': [list(m) for m in missing[:20]]}},
+                      found_input=False)
+
+
+def _run(res, tier, seed, proofs_ok):
     from t4_geom_convert.Kernel import VectUtils as VU
     from t4_geom_convert.Kernel.Volume import Lattice as LT
     import deck as deckmod
@@ -713,7 +792,7 @@ def run(res, tier, seed, proofs_ok):
     # ---------------- corpus ----------------
     # witness of the repaired finding six_planes_trivial_range: one row of
     # hexagons, six planes; must convert
-    conv = convert_watchdog(WITNESS_TRIVIAL_RANGE, 15.0)
+    conv = convert_watchdog(WITNESS_TRIVIAL_RANGE, 15.0, trace=True)
     res.seen(WITNESS_TRIVIAL_RANGE)
     if not conv.ok:
         res.violation('impl-violation',
@@ -743,6 +822,7 @@ def run(res, tier, seed, proofs_ok):
     adj_meta, inter_meta, side_meta, proj_meta = [], [], [], []
     hangs = 0
     for num, (surfs, hexa, listing, fault) in enumerate(stream):
+        COV_ON[0] = num < 250 or fault is not None
         if hangs >= 4 and hexa is not None:
             # the loop of hexVertices no longer ends on admissible prisms:
             # already reported; do not wait 2 s for each of the others
@@ -937,7 +1017,7 @@ def run(res, tier, seed, proofs_ok):
             for lo, hi in bounds:
                 n_el *= hi - lo + 1
             text = domain_deck(nvec, bounds, n_el)
-            conv = convert_watchdog(text, 15.0)
+            conv = convert_watchdog(text, 15.0, trace=len(dom_cases) % 6 == 0)
             res.seen(text)
             if conv.ok:
                 out = ('ok', None)
@@ -1034,15 +1114,16 @@ def run(res, tier, seed, proofs_ok):
     for num in range(n_decks):
         if deck_hangs >= 2:
             break
-        deck, meta = gen_deck(rng)
+        deck, meta = (gen_deck(rng, style='planes', force=num) if num < 5
+                      else gen_deck(rng))
         text = deckmod.render(deck)
         res.seen(text)
         res.count('deck:' + meta['style'])
         if meta['moved']:
             res.count('deck moved:' + meta['moved'])
         with spy:
-            conv = convert_watchdog(text, 15.0)
-        if (meta['moved'] in (None, 'container-fill-tr')
+            conv = convert_watchdog(text, 15.0, trace=num < 30)
+        if (meta['moved'] in (None, 'container-fill-tr', 'lattice-fill-tr')
                 and len(spy.captured) == 1):
             # the (plane, side) list develop_lattice handed to
             # hexLatticeBaseVectors, against the model of the cards
@@ -1098,7 +1179,7 @@ def run(res, tier, seed, proofs_ok):
     for _ in range(40 if quick else 300):
         params, text = rhp_card_deck(rng)
         with spy:
-            conv = convert_watchdog(text, 15.0)
+            conv = convert_watchdog(text, 15.0, trace=len(rhp_cases) % 3 == 0)
         res.seen(text)
         if len(spy.captured) == 1:
             got = ('ok', spy.captured[0])
@@ -1142,13 +1223,13 @@ def run(res, tier, seed, proofs_ok):
     # of develop_lattice: a flipped literal (LatticeError raised by
     # hexSortSides and re-raised), a cap parallel to the axis
     # (ZeroDivisionError), a literal dropped (AssertionError)
-    for _ in range(18 if quick else 120):
+    for k_bad in range(18 if quick else 120):
         deck, meta = gen_deck(rng, style='planes')
-        if meta['moved']:
-            continue
+        while meta['moved']:
+            deck, meta = gen_deck(rng, style='planes')
         lat = deck['cells'][1]
         lits = list(lat['expr'][1:])
-        fault = rng.choice(['flip', 'cap', 'drop'])
+        fault = ['flip', 'cap', 'drop'][k_bad % 3]
         if fault == 'flip':
             k = rng.randrange(6)
             lits[k] = ('s', -lits[k][1])
@@ -1161,7 +1242,7 @@ def run(res, tier, seed, proofs_ok):
             del lits[rng.randrange(len(lits))]
         lat['expr'] = ('*',) + tuple(lits)
         text = deckmod.render(deck)
-        conv = convert_watchdog(text, 15.0)
+        conv = convert_watchdog(text, 15.0, trace=True)
         res.seen(text)
         res.count(f'malformed deck ({fault}): '
                   + ('converted' if conv.ok else str(conv.exc)))
